@@ -32,6 +32,8 @@ ftags = z3.Function("ftags", Row, StrSeq)
 gtype = z3.Function("gtype", Row, Str)
 oid = z3.Function("oid", Row, Int)
 
+# "\t".join(cols): an injective-by-assumption rendering of a column list (see C05 lexing axioms)
+strjoin = z3.Function("strjoin", Str, StrSeq, Str)
 RowArr = z3.ArraySort(Int, Row)
 IntArr = z3.ArraySort(Int, Int)
 
@@ -390,12 +392,30 @@ def solve_text(text, relaxed, timeout_ms=10000, cvc5_timeout_ms=20000, noseq=Non
     dt = time.time() - t0
     if r == z3.unsat:
         return {"status": "discharged", "backend": "z3", "seconds": round(dt, 4)}
+    short_ms = max(2000, int(timeout_ms) // 3)
     if r == z3.unknown and noseq:
         s1 = z3.Solver()
-        s1.set("timeout", int(timeout_ms))
+        s1.set("timeout", short_ms)
         s1.from_string(noseq)
         if s1.check() == z3.unsat:
             return {"status": "discharged", "backend": "z3", "seconds": round(time.time() - t0, 4), "note": "without string assumptions"}
+    if r == z3.unknown:
+        # quantifier instantiation order depends on the solver's random seed: retry before giving up
+        for seed in (7, 23):
+            for txt in (text, noseq):
+                if not txt:
+                    continue
+                s2 = z3.Solver()
+                s2.set("timeout", short_ms)
+                s2.set("random_seed", seed)
+                s2.set("smt.random_seed", seed)
+                s2.from_string(txt)
+                r2 = s2.check()
+                if r2 == z3.unsat:
+                    return {"status": "discharged", "backend": "z3", "seconds": round(time.time() - t0, 4), "note": f"retry seed {seed}"}
+                if r2 == z3.sat and txt is text:
+                    return {"status": "refuted", "backend": "z3", "seconds": round(time.time() - t0, 4), "model": _model_str(s2)}
+        dt = time.time() - t0
     if r == z3.sat:
         return {"status": "refuted", "backend": "z3", "seconds": round(dt, 4), "model": _model_str(s)}
     reason = s.reason_unknown()
